@@ -39,6 +39,10 @@ def make_estimate(div):
         diff = diff if diff >= 0 else -diff
         # recorded finding: the estimator accepts a table value within eps=1e-3 quarters of dur/div that is not equal
         exclude_known("KF-C11-estimate-tolerance", diff > 1e-9 * (1 + dur) and diff < EPS * div * 1.000001)
+        # recorded finding: the tuplet search accepts a ratio whose actual_notes is within eps of an integer k, i.e. a
+        # duration off by up to (dur/div) * eps / k quarters
+        exclude_known("KF-C11-estimate-tuplet-tolerance",
+                      "actual_notes" in s and diff > 1e-9 * (1 + dur) and diff * s["actual_notes"] < dur * EPS * 1.000001)
         check(diff <= 1e-9 * (1 + dur), "estimated symbolic duration does not evaluate to the numeric duration", dur, div, s, back)
         return M.format_symbolic_duration(s)
 
